@@ -139,6 +139,10 @@ STATEMENT_STATUS: Dict[str, str] = {
                                         "space / comments between tokens, inert keywords, stray integers) tokeniser + "
                                         "stack machine return exactly the written pairs, no exception (was: "
                                         "kernel-evaluated instances only); rtItems_ok: non-vacuity",
+    "getFont_direct / init_fonts_own_dictionary": "proved: PDFPageInterpreter.init_resources (model initFonts) - a font dictionary "
+        "written directly (no object id) is never served from / stored in the font cache, and every entry of a /Font resource "
+        "dictionary (referenced or direct, any order, cache on or off, any earlier pages) gets the font of ITS OWN dictionary; "
+        "judged on the real page path by run_fontres",
     "getFont_transparent / font_cache_transparent": "proved: PDFResourceManager.get_font with or without caching returns "
                                                     "for every request sequence exactly the freshly constructed fonts",
 }
